@@ -3,9 +3,9 @@ CONSTANTS
   F = 3
   Keys = {2, 4, 5, 6, 10, 11, 12, 13, 14, 15}
   Threads = {0, 1, 2}
-  Prog <- PO
+  Prog <- PQ
   Init1 = {2}
-  Init2 = {10,12}
+  Init2 = {10,12,14}
   UNLOCK_BEFORE_PARENT = FALSE
   NO_INS_ON_INSERT = FALSE
   NO_INS_ON_DELETE = FALSE
